@@ -218,6 +218,11 @@ func (bd *Backend) SendMetricsAsync(ctx context.Context, mm *gostatsd.MetricMap,
 	})
 
 	mm.Timers.Each(func(name, _ string, t gostatsd.Timer) {
+		if t.Histogram != nil && len(t.Histogram) == 0 {
+			// A gsd_histogram timer with timer-histogram-limit=0 has no buckets: there is nothing to report,
+			// in particular not the summary statistics of a plain timer.
+			return
+		}
 		if !t.Tags.Exists("host") && t.Source != "" {
 			t.Tags = t.Tags.Concat(gostatsd.Tags{"host:" + string(t.Source)})
 		}
